@@ -495,14 +495,8 @@ def kind_edges(fx, fn, pidx, keep):
             continue
         n += 1
         t = fn.term(b)
-        listed = {}
-        for (v, tgt) in t["targets"]:
-            listed[fx.variant_name("serde_json::Value", v)] = tgt
-        for nm, tgt in listed.items():
-            if nm not in keep:
-                removed.append((b, tgt))
-        if all(k in listed for k in keep):
-            removed.append((b, t["otherwise"]))
+        keep_v = [v for v in range(0, 8) if fx.variant_name("serde_json::Value", v) in keep]
+        removed.extend(common.contradicted_edges(t, b, keep_v))
     return removed, n
 
 
